@@ -65,7 +65,7 @@ theorem isMissingMarker_iff (s : Str) : isMissingMarker s = true ↔ Spec.IsMark
 
 /-- `text` keeps every cell's text unchanged (native cells through `str()`); the fixer is not involved -/
 theorem type_text (ext : Ext) (cells : List Cell) (f : Fixer) :
-    parseColumn ext "text".toList cells f = .ok (.text (cells.map Cell.pyStr), f) := by
+    parseColumn ext uText cells f = .ok (.text (cells.map Cell.pyStr), f) := by
   simp [parseColumn]
 
 /-- `onoff`: the model's lookup is exactly the declarative truth table -/
@@ -290,9 +290,9 @@ theorem parseDatetime_counts (ext : Ext) (cells : List Cell) (f : Fixer) (v : Li
 /-- the values of a column as a function of its unit, its own cells, `ext` and the fixer's replacement
     values only (declarative form of `parse_column`) -/
 def Spec.typeColumn (ext : Ext) (cfg : FixCfg) (unit : Str) (cells : List Cell) : Except PyExc ColVals :=
-  if unit = "text".toList then .ok (.text (cells.map Cell.pyStr))
-  else if unit = "onoff".toList then .ok (.onoff (cells.map (fun c => (Spec.onoff c).getD cfg.repOnoff)))
-  else if unit = "datetime".toList then (dtValues ext cfg.repDt cells).map .dt
+  if unit = uText then .ok (.text (cells.map Cell.pyStr))
+  else if unit = uOnoff then .ok (.onoff (cells.map (fun c => (Spec.onoff c).getD cfg.repOnoff)))
+  else if unit = uDatetime then (dtValues ext cfg.repDt cells).map .dt
   else .ok (.num (cells.map (fun c => (floatCell ext c).getD cfg.repFloat)))
 
 /-- **column locality**: the parsed values of one column are a function of its unit, its own cells, `ext`
@@ -301,10 +301,10 @@ def Spec.typeColumn (ext : Ext) (cfg : FixCfg) (unit : Str) (cells : List Cell) 
 theorem parseColumn_values (ext : Ext) (unit : Str) (cells : List Cell) (f : Fixer) :
     (parseColumn ext unit cells f).map (·.1) = Spec.typeColumn ext f.cfg unit cells := by
   unfold parseColumn Spec.typeColumn
-  by_cases h1 : unit = "text".toList
+  by_cases h1 : unit = uText
   · rw [if_pos h1, if_pos h1]; rfl
   · rw [if_neg h1, if_neg h1]
-    by_cases h2 : unit = "onoff".toList
+    by_cases h2 : unit = uOnoff
     · rw [if_pos h2, if_pos h2]
       have := (parseWith_spec onoffCell (·.repOnoff) "onoff" cells f).1
       show Except.ok (ColVals.onoff (parseOnoff cells f).1) = _
@@ -312,7 +312,7 @@ theorem parseColumn_values (ext : Ext) (unit : Str) (cells : List Cell) (f : Fix
       rw [this]
       simp only [type_onoff_cell]
     · rw [if_neg h2, if_neg h2]
-      by_cases h3 : unit = "datetime".toList
+      by_cases h3 : unit = uDatetime
       · rw [if_pos h3, if_pos h3, ← parseDatetime_values]
         cases parseDatetime ext cells f <;> rfl
       · rw [if_neg h3, if_neg h3]
@@ -326,11 +326,11 @@ theorem parseColumn_fixer (ext : Ext) (unit : Str) (cells : List Cell) (f : Fixe
     (h : parseColumn ext unit cells f = .ok (v, f')) :
     f'.cfg = f.cfg ∧ f'.errors = f.errors ∧ f.warnings ≤ f'.warnings := by
   unfold parseColumn at h
-  by_cases h1 : unit = "text".toList
+  by_cases h1 : unit = uText
   · rw [if_pos h1] at h
     cases h; exact ⟨rfl, rfl, Nat.le_refl _⟩
   · rw [if_neg h1] at h
-    by_cases h2 : unit = "onoff".toList
+    by_cases h2 : unit = uOnoff
     · rw [if_pos h2] at h
       have hs := parseWith_spec onoffCell (·.repOnoff) "onoff" cells f
       have : f' = (parseOnoff cells f).2 := by cases h; rfl
@@ -338,7 +338,7 @@ theorem parseColumn_fixer (ext : Ext) (unit : Str) (cells : List Cell) (f : Fixe
       unfold parseOnoff
       exact ⟨hs.2.1, hs.2.2.1, by rw [hs.2.2.2.1]; omega⟩
     · rw [if_neg h2] at h
-      by_cases h3 : unit = "datetime".toList
+      by_cases h3 : unit = uDatetime
       · rw [if_pos h3] at h
         cases hr : parseDatetime ext cells f with
         | error e => rw [hr] at h; cases h
